@@ -1050,6 +1050,28 @@ impl Interp {
                     );
                 }
             }
+            // interval laws: whatever valid bounds the object holds, what it draws lies where its own density is
+            // positive (an object holding lower > upper draws values to which it assigns density 0). Only for the
+            // laws whose density is bounded away from 0 on the support — elsewhere a density may underflow legitimately.
+            for j in 0..(if is_bounds(self.dist) { 8u64 } else { 0 }) {
+                alea::set_seed(0x5EED + 1 + j);
+                if let Ok(x) = self.obj.sample() {
+                    if !x.is_finite() {
+                        continue;
+                    }
+                    if let Ok(d) = self.obj.density(x) {
+                        if d == 0. {
+                            return mk_fail(
+                                self.sig("update", "out-of-domain-after-reject"),
+                                format!(
+                                    "{}: after the rejected update({:?}) on {:?}, the object draws {:e} but its own {}({:e}) is 0: it is not a member of the family for any valid parameters",
+                                    self.name, attempted, self.model, x, kind, x
+                                ),
+                            );
+                        }
+                    }
+                }
+            }
         }
         Ok(())
     }
